@@ -213,7 +213,11 @@ def scalar_case(task):
 
 
 def comp_shapes():
-    return {1: (3,), 2: (2, 3), 3: (2, 3, 2)}
+    # unequal extents tell the component axes apart; the square ones are
+    # the shapes aurel itself differentiates (d_k gamma_ij, Gamma^i_jk),
+    # where a shortcut through an assumed index symmetry would apply
+    return [(1, (3,)), (2, (2, 3)), (3, (2, 3, 2)), (2, (3, 3)),
+            (3, (3, 3, 3))]
 
 
 def tensor_case(task):
@@ -251,7 +255,7 @@ def tensor_case(task):
                         1 + np.abs(base[idx][a]).max()) for a in range(3)):
                 out['bad'].append(('d3_scalar', list(idx)))
                 break
-        for rank, cshape in comp_shapes().items():
+        for rank, cshape in comp_shapes():
             allf = getattr(fd, f'd3_rank{rank}tensor')
             peraxis = [getattr(fd, f'd3{ax}_rank{rank}tensor')
                        for ax in 'xyz']
